@@ -6,6 +6,8 @@ package rt
 import (
 	"encoding/hex"
 	"fmt"
+	"reflect"
+	"strings"
 	"sync"
 )
 
@@ -232,8 +234,9 @@ type Impl struct {
 	TokType       func(id string) int
 	NewParser     func() Parser
 	Tables        func() *Tables
-	ErrorString   func(errObj any) string   // err.Error() of the raw error value
-	ErrorExpected func(errObj any) []string // a copy of the ExpectedTokens field of the raw error value (nil if it is not a parser error)
+	TokenAPI      func(typ int, lit string) string // results of the token package's accessors on a fresh token
+	ErrorString   func(errObj any) string          // err.Error() of the raw error value
+	ErrorExpected func(errObj any) []string        // a copy of the ExpectedTokens field of the raw error value (nil if it is not a parser error)
 }
 
 var (
@@ -337,4 +340,32 @@ func (l LitCheck) A(c any, alt int, args ...any) (any, error) {
 		LitMismatch = l.bad
 	}
 	return A(c, alt, args...)
+}
+
+// CallAccessors calls every exported method of v that takes no parameters (by reflection, in name order) and renders
+// the results; a panic inside one is rendered, not propagated.
+func CallAccessors(v any) string {
+	rv := reflect.ValueOf(v)
+	rt := rv.Type()
+	var sb strings.Builder
+	for i := 0; i < rt.NumMethod(); i++ {
+		m := rt.Method(i)
+		if m.Type.NumIn() != 1 {
+			continue
+		}
+		func() {
+			defer func() {
+				if r := recover(); r != nil {
+					fmt.Fprintf(&sb, "%s=panic ", m.Name)
+				}
+			}()
+			out := rv.Method(i).Call(nil)
+			fmt.Fprintf(&sb, "%s=", m.Name)
+			for _, o := range out {
+				fmt.Fprintf(&sb, "%v,", o.Interface())
+			}
+			sb.WriteString(" ")
+		}()
+	}
+	return sb.String()
 }
